@@ -48,11 +48,11 @@ def run(prop, tier):
         for th in MEMLOG:
             three = len(th) == 3
             scs.append({"kind": "memlog", "threads": th, "max_pre": (1 if quick or three else 2), "cap": 260 if quick else 6000,
-                        "random": 60 if quick else 1500, "seed": rng.randint(0, 10 ** 9), "budget_s": 8 if quick else 120})
+                        "random": 60 if quick else 1500, "seed": rng.randint(0, 10 ** 9), "budget_s": 60 if quick else 400})
         for th in FILES:
             for text in (False, True):
                 scs.append({"kind": "filedest", "threads": th, "text": text, "max_pre": 2, "cap": 150 if quick else 3000,
-                            "random": 30 if quick else 500, "seed": rng.randint(0, 10 ** 9), "budget_s": 5 if quick else 60})
+                            "random": 30 if quick else 500, "seed": rng.randint(0, 10 ** 9), "budget_s": 60 if quick else 300})
         results = run_scenarios(scs)
         mem, fil = [], []
         for res in results:
